@@ -64,6 +64,9 @@ def gen_case0(rng, car):
         op = rng.choice(["OAdd", "ORAdd", "OSub", "ORSub", "OMul", "ORMul", "ONeg"])
         if op == "ONeg":
             return Op(op, [A]), "ttm-scalar", None
+        if not cplx and rng.random() < 0.3:        # a scalar with ~30 significant bits: exact in float64, not representable in float32
+            c = expr.wide_dyadic(rng)
+            return Op(op, [A, Scal(rng.choice(["float", "npf64", "t0"]), c, coq_value=Fraction(c))]), "ttm-scalar-wide", coqrun.QC
         kind = rng.choice(["int", "float", "npf64", "npi64", "t0", "t1"])
         return Op(op, [A, Scal(kind, rng.choice([0, 1, 2, -3]))]), "ttm-scalar", None
     if r < 0.98:
